@@ -1,5 +1,583 @@
 //! Seeded random program generators (beyond the exhaustive TLC scopes).
-pub fn generate(_kind: &str, _seed: u64, _count: usize, _out: &str) {
-  eprintln!("gen: not built yet");
-  std::process::exit(2);
+//! These only choose inputs; what the answers must be is decided by TLC.
+
+use std::{collections::HashMap, io::Write};
+
+use rand::{rngs::StdRng, Rng, SeedableRng};
+use serde_json::{json, Value};
+
+use crate::{build::build, exec::bytes_json};
+
+const B64: &[u8] =
+  b"ABCDEFGHIJKLMNOPQRSTUVWXYZabcdefghijklmnopqrstuvwxyz0123456789+/";
+
+fn vlq(out: &mut Vec<u8>, delta: i64) {
+  let mut num: u64 = if delta < 0 {
+    ((-delta as u64) << 1) | 1
+  } else {
+    (delta as u64) << 1
+  };
+  loop {
+    let mut d = num & 31;
+    num >>= 5;
+    if num > 0 {
+      d |= 32;
+    }
+    out.push(B64[d as usize]);
+    if num == 0 {
+      break;
+    }
+  }
+}
+
+/// (gl, gc, si, ol, oc, ni); si < 0 = one-field segment, ni < 0 = no name
+pub type Seg = (i64, i64, i64, i64, i64, i64);
+
+pub fn encode_segs(segs: &[Seg]) -> Vec<u8> {
+  let mut out = Vec::new();
+  let (mut line, mut gc, mut si, mut ol, mut oc, mut ni) = (1i64, 0i64, 0i64, 1i64, 0i64, 0i64);
+  let mut first = true;
+  for s in segs {
+    if s.0 > line {
+      for _ in 0..(s.0 - line) {
+        out.push(b';');
+      }
+      line = s.0;
+      gc = 0;
+    } else if !first {
+      out.push(b',');
+    }
+    first = false;
+    vlq(&mut out, s.1 - gc);
+    gc = s.1;
+    if s.2 >= 0 {
+      vlq(&mut out, s.2 - si);
+      si = s.2;
+      vlq(&mut out, s.3 - ol);
+      ol = s.3;
+      vlq(&mut out, s.4 - oc);
+      oc = s.4;
+      if s.5 >= 0 {
+        vlq(&mut out, s.5 - ni);
+        ni = s.5;
+      }
+    }
+  }
+  out
+}
+
+#[derive(Clone)]
+pub struct Cfg {
+  pub multibyte: bool,
+  pub wild_maps: bool,
+  pub binary: bool,
+  pub sms: bool,
+  pub inner_maps: bool,
+  pub cached: bool,
+  pub cached_under_replace: bool,
+  pub replace: bool,
+  pub custom: bool,
+  pub depth: u32,
+  pub max_children: usize,
+  pub max_repls: usize,
+  pub max_text: usize,
+  pub repl_names: bool,
+}
+
+impl Cfg {
+  pub fn ascii() -> Self {
+    Cfg {
+      multibyte: false,
+      wild_maps: false,
+      binary: false,
+      sms: true,
+      inner_maps: false,
+      cached: true,
+      cached_under_replace: true,
+      replace: true,
+      custom: false,
+      depth: 3,
+      max_children: 3,
+      max_repls: 4,
+      max_text: 24,
+      repl_names: true,
+    }
+  }
+  pub fn any() -> Self {
+    Cfg {
+      multibyte: true,
+      wild_maps: true,
+      binary: true,
+      ..Cfg::ascii()
+    }
+  }
+}
+
+pub const FILES: [&str; 3] = ["a.js", "b.js", "c.js"];
+pub const CONTENTS: [&str; 3] =
+  ["aa;bb\ncc {d}\n", "x = 1;\ny = 2;", "abc def\n\nghi;"];
+pub const NAMES: [&str; 3] = ["n0", "n1", "abc"];
+
+pub struct Gen {
+  pub rng: StdRng,
+  pub cfg: Cfg,
+  orig_names: HashMap<Vec<u8>, usize>,
+  /// per program: does file i carry content?
+  with_content: [bool; 3],
+  next_cid: u64,
+}
+
+fn name_json(s: &str) -> Value {
+  bytes_json(s.as_bytes())
+}
+
+impl Gen {
+  pub fn new(seed: u64, cfg: Cfg) -> Self {
+    Gen {
+      rng: StdRng::seed_from_u64(seed),
+      cfg,
+      orig_names: HashMap::new(),
+      with_content: [true; 3],
+      next_cid: 0,
+    }
+  }
+
+  pub fn reset_program(&mut self) {
+    self.orig_names.clear();
+    self.next_cid = 0;
+    for i in 0..3 {
+      self.with_content[i] = self.rng.gen_bool(0.75);
+    }
+  }
+
+  fn pick<T: Copy>(&mut self, xs: &[T]) -> T {
+    xs[self.rng.gen_range(0..xs.len())]
+  }
+
+  pub fn text(&mut self, max: usize) -> String {
+    let n = match self.rng.gen_range(0..10) {
+      0 => 0,
+      1..=3 => self.rng.gen_range(0..=3.min(max)),
+      _ => self.rng.gen_range(0..=max),
+    };
+    let mut s = String::new();
+    while s.len() < n {
+      let c = match self.rng.gen_range(0..24) {
+        0..=5 => 'a',
+        6..=7 => 'b',
+        8..=10 => ';',
+        11 => '{',
+        12 => '}',
+        13..=15 => ' ',
+        16..=19 => '\n',
+        20 => '\r',
+        21 => '\t',
+        _ => {
+          if self.cfg.multibyte {
+            self.pick(&['é', '€', '😀', 'a'])
+          } else {
+            'a'
+          }
+        }
+      };
+      s.push(c);
+    }
+    s
+  }
+
+  fn orig_name(&mut self, text: &str) -> String {
+    let n = self.orig_names.len();
+    let k = *self.orig_names.entry(text.as_bytes().to_vec()).or_insert(n);
+    format!("o{k}.js")
+  }
+
+  fn lines_of(text: &str) -> Vec<&str> {
+    let mut v = vec![];
+    let mut rest = text;
+    while !rest.is_empty() {
+      match rest.find('\n') {
+        Some(p) => {
+          v.push(&rest[..=p]);
+          rest = &rest[p + 1..];
+        }
+        None => {
+          v.push(rest);
+          rest = "";
+        }
+      }
+    }
+    v
+  }
+
+  /// sorted segments; inside `text` unless wild
+  pub fn segs_for(&mut self, text: &str, ns: usize, nn: usize, wild: bool) -> Vec<Seg> {
+    let lines = Self::lines_of(text);
+    let mut segs: Vec<Seg> = vec![];
+    let nlines = lines.len() + if wild { 2 } else { 0 };
+    for li in 0..nlines {
+      if self.rng.gen_bool(0.3) {
+        continue;
+      }
+      let len = if li < lines.len() {
+        lines[li].chars().count()
+      } else {
+        3
+      };
+      let maxc = if wild { len + 3 } else { len };
+      if maxc == 0 {
+        continue;
+      }
+      let k = self.rng.gen_range(1..=3);
+      let mut cols: Vec<usize> =
+        (0..k).map(|_| self.rng.gen_range(0..maxc)).collect();
+      cols.sort();
+      if !wild || self.rng.gen_bool(0.8) {
+        cols.dedup();
+      }
+      for c in cols {
+        if self.rng.gen_bool(0.15) {
+          segs.push(((li + 1) as i64, c as i64, -1, 0, 0, -1));
+        } else {
+          let si = if wild && self.rng.gen_bool(0.1) {
+            ns as i64 + self.rng.gen_range(0..2)
+          } else {
+            self.rng.gen_range(0..ns.max(1)) as i64
+          };
+          let ol = if wild && self.rng.gen_bool(0.1) {
+            0
+          } else {
+            self.rng.gen_range(1..=4)
+          };
+          let oc = self.rng.gen_range(0..=7);
+          let ni = if nn > 0 && self.rng.gen_bool(0.35) {
+            if wild && self.rng.gen_bool(0.1) {
+              nn as i64 + 1
+            } else {
+              self.rng.gen_range(0..nn) as i64
+            }
+          } else if wild && nn == 0 && self.rng.gen_bool(0.05) {
+            0
+          } else {
+            -1
+          };
+          segs.push(((li + 1) as i64, c as i64, si, ol, oc, ni));
+        }
+      }
+    }
+    segs
+  }
+
+  pub fn map_json(&mut self, segs: &[Seg], ns: usize, nn: usize, first_file: usize) -> Value {
+    let sources: Vec<Value> =
+      (0..ns).map(|i| name_json(FILES[(first_file + i) % 3])).collect();
+    let all_content =
+      (0..ns).all(|i| self.with_content[(first_file + i) % 3]);
+    let contents: Vec<Value> = if all_content {
+      (0..ns)
+        .map(|i| name_json(CONTENTS[(first_file + i) % 3]))
+        .collect()
+    } else {
+      // a map either carries content for a file or not, consistently
+      let mut v: Vec<Value> = vec![];
+      for i in 0..ns {
+        if self.with_content[(first_file + i) % 3] {
+          while v.len() < i {
+            v.push(name_json(""));
+          }
+          v.push(name_json(CONTENTS[(first_file + i) % 3]));
+        }
+      }
+      v
+    };
+    let names: Vec<Value> = (0..nn).map(|i| name_json(NAMES[i % 3])).collect();
+    let root: Vec<Value> = match self.rng.gen_range(0..10) {
+      0 => vec![name_json("")],
+      1 => vec![name_json("r")],
+      2 => vec![name_json("r/")],
+      _ => vec![],
+    };
+    json!({"m": bytes_json(&encode_segs(segs)), "sources": sources,
+           "contents": contents, "names": names, "root": root,
+           "file": [], "dbg": []})
+  }
+
+  /// An "identity-like" leaf: its text is the content of a pool file and
+  /// its segments map positions to themselves.
+  fn identity_sms(&mut self) -> Value {
+    let fi = self.rng.gen_range(0..3);
+    let text = CONTENTS[fi];
+    let mut segs: Vec<Seg> = vec![];
+    for (li, line) in Self::lines_of(text).iter().enumerate() {
+      let len = line.len();
+      if len == 0 {
+        continue;
+      }
+      let k = self.rng.gen_range(1..=3);
+      let mut cols: Vec<usize> =
+        (0..k).map(|_| self.rng.gen_range(0..len)).collect();
+      cols.sort();
+      cols.dedup();
+      for c in cols {
+        let ni = if self.rng.gen_bool(0.2) { self.rng.gen_range(0..2) } else { -1 };
+        segs.push(((li + 1) as i64, c as i64, 0, (li + 1) as i64, c as i64, ni));
+      }
+    }
+    let was = self.with_content[fi];
+    if self.rng.gen_bool(0.8) {
+      self.with_content[fi] = true;
+    }
+    let map = self.map_json(&segs, 1, 2, fi);
+    self.with_content[fi] = was || self.with_content[fi];
+    json!({"k": "sms", "b": name_json(text), "name": name_json("gen.js"),
+           "map": map, "inner": [], "osrc": [], "remove": false})
+  }
+
+  pub fn leaf(&mut self) -> Value {
+    let kind = self.rng.gen_range(0..12);
+    match kind {
+      0..=2 => {
+        let t = self.text(self.cfg.max_text);
+        let sub = self.pick(&["str", "rawstr", "buf", "rawbuf"]);
+        json!({"k": "raw", "sub": sub, "b": name_json(&t)})
+      }
+      3 if self.cfg.binary => {
+        // invalid UTF-8 in a buffer
+        let mut b = self.text(8).into_bytes();
+        let junk: &[&[u8]] = &[
+          &[0x80], &[0xC3], &[0xE2, 0x82], &[0xF0, 0x9F, 0x98], &[0xC0, 0xAF],
+          &[0xED, 0xA0, 0x80], &[0xFF], &[0xF4, 0x90, 0x80, 0x80],
+        ];
+        let j = junk[self.rng.gen_range(0..junk.len())];
+        let at = self.rng.gen_range(0..=b.len());
+        // keep the insertion point on a char boundary of the valid part
+        let at = (0..=at).rev().find(|i| std::str::from_utf8(&b[..*i]).is_ok()).unwrap_or(0);
+        let tail = b.split_off(at);
+        b.extend_from_slice(j);
+        b.extend_from_slice(&tail);
+        let sub = self.pick(&["buf", "rawbuf"]);
+        json!({"k": "raw", "sub": sub, "b": bytes_json(&b)})
+      }
+      3..=7 => {
+        let t = self.text(self.cfg.max_text);
+        let name = self.orig_name(&t);
+        json!({"k": "orig", "b": name_json(&t), "name": name_json(&name)})
+      }
+      _ if self.cfg.sms => {
+        if self.rng.gen_bool(0.3) {
+          return self.identity_sms();
+        }
+        let t = self.text(self.cfg.max_text);
+        let ns = self.rng.gen_range(1..=3);
+        let nn = self.rng.gen_range(0..=2);
+        let wild = self.cfg.wild_maps && self.rng.gen_bool(0.4);
+        let segs = self.segs_for(&t, ns, nn, wild);
+        let first = self.rng.gen_range(0..3);
+        let map = self.map_json(&segs, ns, nn, first);
+        if self.cfg.custom && self.rng.gen_bool(0.3) {
+          json!({"k": "default", "b": name_json(&t), "map": [map]})
+        } else {
+          json!({"k": "sms", "b": name_json(&t), "name": name_json("gen.js"),
+                 "map": map, "inner": [], "osrc": [], "remove": false})
+        }
+      }
+      _ => {
+        let t = self.text(self.cfg.max_text);
+        let name = self.orig_name(&t);
+        json!({"k": "orig", "b": name_json(&t), "name": name_json(&name)})
+      }
+    }
+  }
+
+  /// text of a tree, obtained by building it (only used to place
+  /// replacements on character boundaries)
+  fn text_of(tree: &Value) -> String {
+    let regs: Vec<Option<crate::build::Val>> = vec![None; 16];
+    build(tree, &regs).as_source().source().to_string()
+  }
+
+  pub fn replacement(&mut self, inner_text: &str) -> Value {
+    let n = inner_text.len();
+    let mut bounds: Vec<usize> =
+      inner_text.char_indices().map(|(i, _)| i).collect();
+    bounds.push(n);
+    let pos = |g: &mut Gen| -> usize {
+      if g.rng.gen_bool(0.12) {
+        n + g.rng.gen_range(1..4)
+      } else {
+        bounds[g.rng.gen_range(0..bounds.len())]
+      }
+    };
+    let a = pos(self);
+    let b = if self.rng.gen_bool(0.3) { a } else { pos(self) };
+    let (s, e) = if a <= b { (a, b) } else { (b, a) };
+    let content = match self.rng.gen_range(0..8) {
+      0..=1 => String::new(),
+      2 => "\n".to_string(),
+      3 => "x\n".to_string(),
+      _ => self.text(5),
+    };
+    let name: Vec<Value> = if self.cfg.repl_names && self.rng.gen_bool(0.3) {
+      vec![name_json(self.pick(&["rn", "n0", "n1"]))]
+    } else {
+      vec![]
+    };
+    let enf = self.rng.gen_range(0..3);
+    let api = if s == e {
+      self.pick(&["insert", "insert_enf", "replace", "replace_enf"])
+    } else {
+      self.pick(&["replace", "replace_enf"])
+    };
+    let enf = if api == "insert" || api == "replace" { 1 } else { enf };
+    json!({"s": s, "e": e, "c": name_json(&content), "n": name, "enf": enf, "api": api})
+  }
+
+  pub fn tree(&mut self, depth: u32, under_replace: bool) -> Value {
+    if depth == 0 || self.rng.gen_bool(0.25) {
+      return self.leaf();
+    }
+    match self.rng.gen_range(0..10) {
+      0..=3 => {
+        let n = self.rng.gen_range(0..=self.cfg.max_children);
+        let ch: Vec<Value> =
+          (0..n).map(|_| self.tree(depth - 1, under_replace)).collect();
+        let all_concat =
+          !ch.is_empty() && ch.iter().all(|c| c["k"] == "concat");
+        let mode = if all_concat && self.rng.gen_bool(0.5) { "typed" } else { "boxed" };
+        let mut t = json!({"k": "concat", "mode": mode, "ch": ch});
+        if self.rng.gen_bool(0.25) {
+          let m = self.rng.gen_range(1..=2);
+          let adds: Vec<Value> =
+            (0..m).map(|_| self.tree(depth - 1, under_replace)).collect();
+          t["adds"] = Value::Array(adds);
+        }
+        t
+      }
+      4..=6 if self.cfg.replace => {
+        let inner = self.tree(depth - 1, true);
+        let text = Self::text_of(&inner);
+        let n = self.rng.gen_range(0..=self.cfg.max_repls);
+        let repls: Vec<Value> =
+          (0..n).map(|_| self.replacement(&text)).collect();
+        json!({"k": "replace", "inner": inner, "repls": repls})
+      }
+      7..=8 if self.cfg.cached && (!under_replace || self.cfg.cached_under_replace) => {
+        let inner = self.tree(depth - 1, under_replace);
+        self.next_cid += 1;
+        json!({"k": "cached", "cid": self.next_cid, "inner": inner})
+      }
+      9 => {
+        let inner = self.tree(depth - 1, under_replace);
+        json!({"k": "box", "inner": inner})
+      }
+      _ => self.leaf(),
+    }
+  }
+}
+
+fn obs(op: &str, r: u64) -> Value {
+  json!({"op": op, "r": r})
+}
+fn stream(r: u64, columns: bool, fin: bool) -> Value {
+  json!({"op": "stream", "r": r, "columns": columns, "final": fin})
+}
+fn map(r: u64, columns: bool) -> Value {
+  json!({"op": "map", "r": r, "columns": columns})
+}
+
+pub fn generate(kind: &str, seed: u64, count: usize, out: &str) {
+  std::panic::set_hook(Box::new(|_| {}));
+  let cfg = match kind {
+    "stream_any" | "views" => Cfg::any(),
+    "replace_hist" => Cfg { depth: 1, wild_maps: false, ..Cfg::any() },
+    _ => Cfg::ascii(),
+  };
+  let mut g = Gen::new(seed, cfg);
+  let mut f = std::io::BufWriter::new(std::fs::File::create(out).unwrap());
+  let mut pid = 0u64;
+  while (pid as usize) < count {
+    g.reset_program();
+    // building inside the generator may hit a crate panic; skip such shapes
+    let tree = match std::panic::catch_unwind(std::panic::AssertUnwindSafe(|| {
+      let d = g.cfg.depth;
+      g.tree(d, false)
+    })) {
+      Ok(t) => t,
+      Err(_) => continue,
+    };
+    let mut steps = vec![json!({"op": "build", "dst": 0, "tree": tree})];
+    match kind {
+      "replace_hist" => {
+        // a ReplaceSource over the tree, mutated step by step with
+        // observers in between
+        let inner_text = match std::panic::catch_unwind(|| Gen::text_of(&steps[0]["tree"])) {
+          Ok(t) => t,
+          Err(_) => continue,
+        };
+        let inner = steps[0]["tree"].clone();
+        steps[0] = json!({"op": "build", "dst": 0,
+          "tree": {"k": "replace", "inner": inner, "repls": []}});
+        let n = g.rng.gen_range(1..=6);
+        let mut have_clone = false;
+        for _ in 0..n {
+          let mut m = g.replacement(&inner_text);
+          m["op"] = json!("replace");
+          m["r"] = json!(0);
+          steps.push(m);
+          match g.rng.gen_range(0..12) {
+            0 => steps.push(obs("source", 0)),
+            1 => steps.push(obs("rope", 0)),
+            2 => steps.push(obs("buffer", 0)),
+            3 => steps.push(obs("size", 0)),
+            4 => steps.push(map(0, g.rng.gen_bool(0.5))),
+            5 => steps.push(json!({"op": "hash", "r": 0, "h": "twox"})),
+            6 => steps.push(stream(0, g.rng.gen_bool(0.5), false)),
+            7 => {
+              steps.push(json!({"op": "clone", "dst": 1, "src": 0}));
+              steps.push(obs("source", 1));
+              have_clone = true;
+            }
+            8 => steps.push(obs("debug", 0)),
+            _ => {}
+          }
+        }
+        steps.push(obs("source", 0));
+        steps.push(obs("rope", 0));
+        steps.push(obs("buffer", 0));
+        steps.push(obs("size", 0));
+        steps.push(json!({"op": "writer", "r": 0, "kind": "ok", "k": 0}));
+        steps.push(stream(0, true, false));
+        if have_clone {
+          steps.push(obs("source", 1));
+          steps.push(obs("rope", 1));
+        }
+      }
+      "views" => {
+        steps.push(obs("source", 0));
+        steps.push(obs("buffer", 0));
+        steps.push(obs("size", 0));
+        steps.push(obs("rope", 0));
+        for _ in 0..3 {
+          let k = g.rng.gen_range(0..40);
+          let wk = g.pick(&["err", "zero", "intr", "chunky", "ok"]);
+          steps.push(json!({"op": "writer", "r": 0, "kind": wk, "k": k}));
+        }
+      }
+      _ => {
+        steps.push(obs("source", 0));
+        steps.push(stream(0, true, false));
+        steps.push(stream(0, false, false));
+        steps.push(stream(0, true, true));
+        steps.push(stream(0, false, true));
+        steps.push(map(0, true));
+        steps.push(map(0, false));
+        // a clone taken after the first streams: cached nodes now replay
+        steps.push(json!({"op": "clone", "dst": 1, "src": 0}));
+        steps.push(stream(1, true, false));
+        steps.push(stream(1, false, false));
+      }
+    }
+    writeln!(f, "{}", json!({"pid": pid, "steps": steps})).unwrap();
+    pid += 1;
+  }
+  f.flush().unwrap();
 }
